@@ -235,6 +235,7 @@ type procOut struct {
 	log      string
 	crashed  bool
 	timedOut bool
+	partial  []h.Violation
 	exit     int
 }
 
@@ -242,6 +243,8 @@ func runShard(p *prop, ph *phase, bin, outDir, tier string, shard, shards int, e
 	logPath := filepath.Join(outDir, fmt.Sprintf("log-%s-%d.txt", ph.Name, shard))
 	resPath := filepath.Join(outDir, fmt.Sprintf("result-%s-%d.json", ph.Name, shard))
 	_ = os.Remove(resPath)
+	partPath := filepath.Join(outDir, fmt.Sprintf("partial-%s-%d.json", ph.Name, shard))
+	_ = os.Remove(partPath)
 	lf, _ := os.Create(logPath)
 	args := []string{"--phase", ph.Name, "--shard", fmt.Sprintf("%d/%d", shard, shards), "--out", outDir}
 	args = append(args, ph.Args...)
@@ -288,6 +291,16 @@ func runShard(p *prop, ph *phase, bin, outDir, tier string, shard, shards int, e
 		var r h.Result
 		if json.Unmarshal(b, &r) == nil && r.Done {
 			po.res = &r
+		}
+	}
+	if po.res == nil {
+		// the shard did not finish (watchdog, fatal error): the violations it had recorded by then
+		// still count; its evaluations and coverage counters do not
+		if b, err := os.ReadFile(partPath); err == nil {
+			var r h.Result
+			if json.Unmarshal(b, &r) == nil {
+				po.partial = r.Violations
+			}
 		}
 	}
 	if po.res == nil && !po.timedOut {
@@ -398,6 +411,9 @@ func runProp(id, tier, only string) int {
 		for _, po := range outs {
 			if po.res != nil {
 				mergeResult(m, ph, po.res)
+			}
+			for _, v := range po.partial {
+				m.viol = append(m.viol, violRec{Violation: v, Phase: ph.Name})
 			}
 			if po.timedOut {
 				m.inc = append(m.inc, fmt.Sprintf("phase=%s shard=%d watchdog (%v) fired; log %s", ph.Name, po.shard, ph.timeout(tier), po.log))
